@@ -66,6 +66,7 @@ FinalClauses ==
     C17_MassTable |-> T.K.coarse \/ \A f \in DOMAIN K.frags : MassKnown(K, f) =>
                          Abs(K.frags[f].mass - MassOf(K, f)) <= 12 * (K.frags[f].natoms * 4),
     C16_Tree |-> Tree(S) /\ T.tree_ok,
+    X_StartFragmentHonoured |-> T.want_start = 0 \/ T.start = T.want_start,
     C16_NeverZero |-> NeverZero(K, S) ]
 
 Init == /\ tid \in 1..Len(Traces) /\ l = 1 /\ bad = {}
